@@ -951,7 +951,9 @@ class Expr:
     @property
     @_cache_in_props
     def _is_nonnegative(self):
-        assert not self.is_complex
+        if self.is_complex:
+            # complex values are not ordered
+            return None
         if self.kind == "constant":
             value, like = self.operands
             if isinstance(value, float_types + integer_types):
@@ -1000,7 +1002,9 @@ class Expr:
     @property
     @_cache_in_props
     def _is_nonpositive(self):
-        assert not self.is_complex
+        if self.is_complex:
+            # complex values are not ordered
+            return None
         if self.kind == "constant":
             value, like = self.operands
             if isinstance(value, float_types + integer_types):
